@@ -1,10 +1,10 @@
 #!/bin/sh
-# robustness: every claimed check under several seeds (false-alarm hunt). Usage: tools/seeds.sh "1 2 3" [tier]
-cd "$(dirname "$0")/.."
-./setup.sh >/dev/null 2>&1
+# False-alarm hunt: every claimed check on the unchanged tree under other generator seeds. Usage: tools/seeds.sh "2 3 4" [tier]
+# Evidence and replays of these runs go to a scratch directory (VERIF_OUT), not to /verif/evidence.
+root=$(cd "$(dirname "$0")/.." && pwd)
+cd $root
+ids=$(python3 -c "import json; print(' '.join(c['property_id'] for c in json.load(open('MANIFEST.json'))['checks']))")
 for s in $1; do
-  for id in $(python3 -c "import json; print(' '.join(c['property_id'] for c in json.load(open('MANIFEST.json'))['checks']))"); do
-    VERIF_SEED=$s ./check $id --tier ${2:-quick} > /tmp/seed_$id_$s.log 2>&1
-    echo "seed=$s $id exit=$? $(grep -c VIOLATION /tmp/seed_$id_$s.log) $(tail -1 /tmp/seed_$id_$s.log | cut -c1-80)"
-  done
+  out=$(mktemp -d /tmp/sweep_$s.XXXX)
+  echo $ids | tr ' ' '\n' | xargs -P 4 -I{} sh -c "VERIF_SEED=$s VERIF_OUT=$out ./check {} --tier ${2:-quick} > $out/{}.log 2>&1; echo \"seed=$s {} exit=\$? \$(grep -h '^VIOLATION\|CHECK ERROR' $out/{}.log | head -2 | tr '\n' ' ' | cut -c1-200)\""
 done
